@@ -125,9 +125,21 @@ func soak(d *daemonWorld, spec soakSpec) soakResult {
 						cur, _ := tp.Rows[0]["in"].(float64)
 						tp.Rows[0]["in"] = 1 - cur
 					}
-					if spec.Restarts && step%40 == 0 {
+					if spec.Restarts && step%20 == 0 {
 						if st := tables["status"]; st != nil && len(st.Rows) > 0 {
 							st.Rows[0]["program_start"] = now
+						}
+						// the restarted core comes back with other contacts: who may see an object changes with the rebuild
+						for _, tname := range []string{"hosts", "services"} {
+							if t := tables[tname]; t != nil {
+								for i, row := range t.Rows {
+									if (i+step/20)%2 == 0 {
+										row["contacts"] = []interface{}{"alice"}
+									} else {
+										row["contacts"] = []interface{}{"bob"}
+									}
+								}
+							}
 						}
 					}
 				})
@@ -187,6 +199,10 @@ func soak(d *daemonWorld, spec soakSpec) soakResult {
 		"GET hosts\nColumns: name comments downtimes comments_with_info downtimes_with_info services services_with_state services_with_info\nOutputFormat: json\n\n",
 		"GET services\nColumns: description comments comments_with_info host_comments host_comments_with_info\nAuthUser: alice\nOutputFormat: json\n\n",
 		"GET comments\nColumns: id host_name service_description comment host_state service_state\nSort: id asc\nOutputFormat: json\n\n",
+		// what a contact may see is decided on the same objects that are printed: every row carries the contact
+		"GET hosts\nColumns: peer_key name contacts\nAuthUser: alice\nOutputFormat: json\n\n",
+		"GET hosts\nColumns: peer_key name contacts\nAuthUser: bob\nOutputFormat: json\n\n",
+		"GET services\nColumns: peer_key host_name description contacts host_contacts\nAuthUser: alice\nOutputFormat: json\n\n",
 		"GET hostgroups\nColumns: name members members_with_state num_hosts num_services_crit worst_host_state\nOutputFormat: json\n\n",
 		"GET hosts\nColumns: name state\nWaitTrigger: all\nWaitCondition: state >= 0\nWaitTimeout: 20\nOutputFormat: json\n\n",
 		"GET sites\nColumns: peer_key status last_error\nOutputFormat: json\n\n",
@@ -226,6 +242,28 @@ func soak(d *daemonWorld, spec soakSpec) soakResult {
 						continue
 					}
 					addErr(&res.Errors, "answer is not JSON: "+string(body[:minInt(len(body), 200)]))
+
+					continue
+				}
+				if strings.Contains(q, " contacts") && strings.Contains(q, "AuthUser: ") {
+					user := strings.TrimSpace(strings.SplitN(strings.SplitN(q, "AuthUser: ", 2)[1], "\n", 2)[0])
+					for _, row := range rows {
+						atomic.AddInt64(&res.Rows, 1)
+						found := false
+						for _, cell := range row[2:] {
+							if list, ok := cell.([]interface{}); ok {
+								for _, c := range list {
+									if c == user {
+										found = true
+									}
+								}
+							}
+						}
+						if !found {
+							enc, _ := json.Marshal(row)
+							addErr(&res.Torn, fmt.Sprintf("returned for AuthUser %s although the contacts printed in the same row do not name the user: %s", user, string(enc)))
+						}
+					}
 
 					continue
 				}
